@@ -314,9 +314,34 @@ class StmtMixin:
         """Forget what the loop body may change.  Mutations happen through names; each such name denotes a place
         (a Ref): only that place is havocked, so everything outside it stays the *same term* as before the loop.
         Names that are (re)bound inside the loop are resolved to the names their right-hand sides are rooted in."""
-        names, roots = assigned_names(body_stmts)
+        names, _coarse_roots = assigned_names(body_stmts)
         names |= set(extra_names)
         env = self.st.env
+        roots: set = set()
+        fine_refs: list = []
+
+        def add_target(expr):
+            """expr denotes an object mutated in the loop: havoc exactly its place when that place does not
+            depend on anything the loop rebinds, else fall back to the whole root variable"""
+            if expr is None:
+                return
+            free = {n.id for n in ast.walk(expr) if isinstance(n, ast.Name)}
+            simple = all(isinstance(n, (ast.Name, ast.Attribute, ast.Subscript, ast.Constant, ast.Load, ast.Index))
+                         for n in ast.walk(expr))
+            if simple and not (free & names) and all(f in env for f in free):
+                self.spec_mode += 1  # no obligations for this look-ahead evaluation
+                try:
+                    v = self.ev(expr)
+                    if isinstance(v, SV) and v.ref is not None:
+                        fine_refs.append(v.ref)
+                        return
+                except Unsupported:
+                    pass
+                finally:
+                    self.spec_mode -= 1
+            r = root_name(expr)
+            if r:
+                roots.add(r)
 
         def root_name(e):
             while isinstance(e, (ast.Attribute, ast.Subscript, ast.Call, ast.Starred, ast.Await)):
@@ -337,6 +362,27 @@ class StmtMixin:
                 for x in t.elts:
                     add_alias(x, src)
 
+        def add_store_target(t):
+            if isinstance(t, (ast.Attribute, ast.Subscript)):
+                add_target(t.value)
+            elif isinstance(t, (ast.Tuple, ast.List)):
+                for x in t.elts:
+                    add_store_target(x)
+
+        for st in body_stmts:
+            for n in ast.walk(st):
+                if isinstance(n, ast.Assign):
+                    for t in n.targets:
+                        add_store_target(t)
+                elif isinstance(n, (ast.AugAssign, ast.AnnAssign)):
+                    add_store_target(n.target)
+                    if isinstance(n, ast.AugAssign) and isinstance(n.target, ast.Name):
+                        add_target(n.target)  # x += [...] mutates a list in place
+                elif isinstance(n, ast.Delete):
+                    for t in n.targets:
+                        add_store_target(t)
+                elif isinstance(n, ast.Call) and isinstance(n.func, ast.Attribute) and n.func.attr in MUTATING_METHODS:
+                    add_target(n.func.value)
         for st in body_stmts:
             for n in ast.walk(st):
                 if isinstance(n, ast.Assign):
@@ -360,9 +406,7 @@ class StmtMixin:
                                 i = pnames.index(m)
                                 arg = n.args[i] if i < len(n.args) else next(
                                     (k.value for k in n.keywords if k.arg == m), None)
-                                r = root_name(arg) if arg is not None else None
-                                if r:
-                                    roots.add(r)
+                                add_target(arg)
         # close the mutated roots under "is (re)bound in the loop from something rooted at ..."
         frontier = set(roots)
         changed = True
@@ -374,10 +418,24 @@ class StmtMixin:
                         if a not in frontier:
                             frontier.add(a)
                             changed = True
+        places = []
         for r in sorted(frontier):
             v = env.get(r)
-            if not isinstance(v, Ref):
+            if isinstance(v, Ref):
+                places.append((r, v))
+        covered = [v for _, v in places]
+
+        def inside(rf, c):
+            return rf.cell == c.cell and len(rf.path) >= len(c.path) and all(
+                self._step_eq(a, b) for a, b in zip(rf.path, c.path))
+
+        for rf in sorted(fine_refs, key=lambda r_: len(r_.path)):
+            # skip places inside an already havocked bigger place
+            if any(inside(rf, c) for c in covered):
                 continue
+            covered.append(rf)
+            places.append(("place", rf))
+        for r, v in places:
             cur = self.read_ref(v)
             if cur.term is None:
                 raise Unsupported(f"loop mutates '{r}', an untyped empty container (annotate it)")
@@ -485,6 +543,11 @@ class StmtMixin:
 
     def _src_term(self, src):
         if isinstance(src, SV):
+            if src.ty.kind == "list" and src.term is not None:
+                # python's list iterator is index based: only the length decides which indices are visited
+                return z3.simplify(self.lst(src)[1](src.term))
+            if src.ty.kind == "dict" and src.term is not None:
+                return z3.simplify(self.dct(src)[1](src.term))
             return src.term
         if isinstance(src, DictView):
             if src.d.term is None:
